@@ -3,7 +3,7 @@ import re
 
 from .. import obs as O
 from ..monitor import StepBudgetExceeded
-from .common import Contract, ansi_values, history, run_cases, tier_sizes, is_ansi, FLAG_COMBOS
+from .common import trie_case, Contract, ansi_values, history, run_cases, tier_sizes, is_ansi, FLAG_COMBOS
 from .c08 import Snap
 from .c05 import self_insertion, seam_workshop
 from .c06 import restart_workshop
@@ -263,6 +263,11 @@ def drive(ctx, mon, tier, only_case=None):
     sz = tier_sizes(tier)
 
     def body(rng, ex, case):
+        if case == 0:
+            # every history of up to 2 (quick) / 3 (thorough) apply/remove operations, each call judged (documented
+            # error or success; consistency self-check and the health probe on every value produced)
+            trie_case(ctx, mon, tier, 2, 3, judged_walk=True)
+            return
         profile = rng.choice(['wf', 'mixed', 'hostile', 'hostile'])
         esc = rng.random() < 0.3
         if ctx.extra.get('n_budget_violations', 0) >= 3:
